@@ -137,6 +137,26 @@ CHECKS = {
          "The pandas side is the oracle (tied to exact oracles by C01/C04/C05); n=4 quick (plus a slice of n=6), n=6 "
          "thorough; pack_partitions raising is exempt; known finding F18 (dask phantom partition after pack) is listed.",
          "DESIGN.md section 3/C06"),
+ "C09": ("exploration", "E1",
+         "bounded exhaustive enumeration of frames x input partitionings x npartitions x p, checked against row multiset / per-row Hilbert distance / ordering",
+         "3 frames (duplicate geometries, missing geometry, degenerate extent) x both geometry columns active x every "
+         "from_pandas partition count plus pre-sorted input, Dask-side set_geometry, cached-bounds-then-filter and "
+         "emptied-partition provenances x requested partitions 1..n+2 x p: whenever the call returns and computes, rows are "
+         "conserved, each row's index is the Hilbert distance of its own active geometry w.r.t. the whole frame, the "
+         "index is monotone within and across partitions, the partition count is as requested, and the result does not "
+         "depend on the input partitioning.",
+         "A raise (at call or compute) is outside the claim and only counted; known finding F19 (phantom partition count) listed.",
+         "DESIGN.md section 3/C09"),
+ "C10": ("exploration", "E1",
+         "bounded exhaustive enumeration of configurations, observed on the real directory tree",
+         "Frames (1..8 rows with duplicates / missing / degenerate extent, and 14 distinct rows for >10 parts) x input "
+         "partitions 1..3 x npartitions 1..16 x five tempdir_format kinds (default, outside with/without uuid, outside but "
+         "sharing the dataset path as prefix, with a format spec) x compression x previous larger/smaller dataset with "
+         "overwrite=True: the real directory tree must hold exactly part.0..part.(k-1) as files plus the two metadata files, "
+         "nothing may be left in the temp tree, and the returned frame and an independent read_parquet_dask must both "
+         "hold the input rows in Hilbert order with k non-empty partitions.",
+         "_retry_args shortened (1 ms, 3 attempts); quick rotates the last three axes over the full npartitions product.",
+         "DESIGN.md section 3/C10"),
 }
 
 NOT_YET = {}
